@@ -716,6 +716,14 @@ def _closure_is_plus_one(prog, cid):
 @_pred
 def find_plus_one(self, s, args):
     """`v + 1` where v is the byte offset returned by str::find: v < len <= isize::MAX"""
+    if s.kind == "assert" and s.term["detail"].get("op") == "Add":
+        a = G.describe(s.body, s.term["detail"]["a"])
+        one = G.describe(s.body, s.term["detail"]["b"])
+        m = re.fullmatch(r"_(\d+) as Some\.0", repr(a))
+        if m and one.kind == "const" and one.v == 1:
+            src = G.describe_place(s.body, {"l": int(m.group(1)), "p": []})
+            if src.kind == "call" and src.v in ("core::str::<impl str>::find", "core::str::<impl str>::rfind"):
+                return True, "Some(offset) of str::find; offset < len <= isize::MAX"
     cp = self._closure_parent(s.body)
     if not cp:
         return False, "not a closure"
@@ -738,6 +746,11 @@ def slice_from_find_plus_one(self, s, args):
     if not (rng.kind == "agg" and rng.v == "RangeFrom" and rng.args):
         return False, "not a RangeFrom slice"
     k = rng.args[0]
+    if k.kind == "binop" and k.v == "Add" and len(k.args) == 2 and k.args[1].kind == "const" and k.args[1].v == 1:
+        m = re.fullmatch(r"_(\d+) as Some\.0", repr(k.args[0]))
+        src = G.describe_place(b, {"l": int(m.group(1)), "p": []}) if m else None
+        if src is not None and src.kind == "call" and src.v in ("core::str::<impl str>::find", "core::str::<impl str>::rfind") and src.args[0].same(recv) and src.args[1].kind == "const" and 0 < src.args[1].v < 0x80:
+            return True, "start = offset of an ASCII %r found in the same string, plus its one byte" % chr(src.args[1].v)
     if not (k.kind == "call" and k.v == "std::option::Option::map_or" and len(k.args) == 3):
         return False, "start is not map_or(...)"
     f, dflt, clo = k.args
